@@ -165,11 +165,13 @@ var restoreCmd = &cobra.Command{
 							return err
 						}
 					}
-				} else if isNodeFound || isRegistered { // file
+				}
+				// the name may (also) be a file, staged or in HEAD
+				if isRegistered || (isNodeFound && !isNodeDir) {
 					if err := restoreIndex(client.RootGoitPath, cleanedArg, client.Idx, tree); err != nil {
 						return err
 					}
-				} else {
+				} else if !(isNodeDir || isRegisteredAsDir) {
 					return fmt.Errorf("error: pathspec '%s' did not match any file(s) known to goit", arg)
 				}
 			}
